@@ -148,14 +148,32 @@ func (g *G) valueFor(family string, computed bool) string {
 			return g.cs("auto")
 		}
 		return g.length()
-	case "border-width":
+	case "border-width", "outline-width", "column-rule-width":
 		return g.borderWidth()
-	case "border-style":
+	case "border-style", "outline-style", "column-rule-style": // `hidden` is not an outline style
 		return g.borderStyle()
-	case "border-color", "color":
+	case "outline-color":
+		if g.r.Chance(1, 5) {
+			return g.cs("invert")
+		}
+		return g.color()
+	case "border-color", "color", "column-rule-color":
 		return g.color()
 	case "visibility":
 		return g.cs(g.pick("visible", "hidden", "collapse"))
+	case "column-width":
+		if g.r.Chance(1, 4) {
+			return g.cs("auto")
+		}
+		if computed {
+			return g.pxLength()
+		}
+		return strings.TrimPrefix(g.length(), "-")
+	case "column-count":
+		if g.r.Chance(1, 4) {
+			return g.cs("auto")
+		}
+		return fmt.Sprintf("%d", g.r.Range(1, 12))
 	}
 	return "0"
 }
@@ -192,7 +210,7 @@ var customNames = []string{"--a", "--b", "--c", "--d", "--e", "--A", "--long-nam
 // ---- custom property graphs
 
 func (g *G) leafTokens() string {
-	return g.pick("1px", "2px 3px", "red", "solid", "auto", "inherit", "initial", "1px solid red", "10%", "4px 5px 6px 7px",
+	return g.pick("1px", "2px 3px", "red", "solid", "auto", "inherit", "initial", "1px solid red", "10%", "4px 5px 6px 7px", "3", "auto 5px", "2 auto",
 		"hidden", "thick", "#0f0", "0", "junk", "1px 2px 3px 4px 5px", "dotted blue", "1px,2px", "-3px", "visible", "transparent")
 }
 
@@ -284,7 +302,11 @@ func (g *G) graph() (decls []string, names []string) {
 // a declaration using var() in a modelled property
 func (g *G) varUse(names []string) string {
 	v := func() string { return g.varRef(names, 2) }
-	switch g.r.Intn(12) {
+	switch g.r.Intn(14) {
+	case 12:
+		return "columns: " + g.pick(v()+" "+g.valueFor("column-width", true), g.valueFor("column-count", true)+" "+v(), v(), "auto "+v(), v()+" "+v())
+	case 13:
+		return g.pick("column-width", "column-count") + ": " + v()
 	case 0:
 		return g.cs("margin") + ": " + v()
 	case 1:
@@ -312,6 +334,31 @@ func (g *G) varUse(names []string) string {
 	}
 }
 
+// columns = <'column-width'> || <'column-count'>: one or both components in either order (valid),
+// and the near misses: two widths, two counts, three values, a zero / negative / fractional count,
+// a negative or percentage width
+func (g *G) columnsValue(computed bool) string {
+	w, c := g.valueFor("column-width", computed), g.valueFor("column-count", computed)
+	switch g.r.Intn(12) {
+	case 0:
+		return w
+	case 1:
+		return c
+	case 2, 3, 4:
+		return w + g.sep() + c
+	case 5, 6, 7:
+		return c + g.sep() + w
+	case 8:
+		return g.pick(w+" "+g.valueFor("column-width", computed), c+" "+g.valueFor("column-count", computed), w+" "+c+" "+g.cs("auto"), g.cs("auto")+" "+g.cs("auto")+" "+g.cs("auto"))
+	case 9:
+		return g.pick("0", "-2", "1.5", "2.0", "+3", "1e1") + g.pick("", " "+w, " auto")
+	case 10:
+		return g.pick("-1px", "10%", "-0", "0px", "1", "none", "normal") + g.pick("", " "+c, " auto")
+	default:
+		return g.defaultKw() + g.pick("", "", " "+w, " "+c)
+	}
+}
+
 // one declaration (text without the trailing ';')
 func (g *G) decl(computed bool, names []string) string {
 	imp := ""
@@ -322,9 +369,10 @@ func (g *G) decl(computed bool, names []string) string {
 	k := g.r.Intn(100)
 	switch {
 	case k < 22: // valid longhand
-		fam := g.pick("margin", "padding", "bleed", "border-width", "border-style", "border-color", "color", "visibility")
+		fam := g.pick("margin", "padding", "bleed", "border-width", "border-style", "border-color", "color", "visibility", "column-width", "column-count",
+			"outline-width", "outline-style", "outline-color", "column-rule-width", "column-rule-style", "column-rule-color")
 		name := fam
-		if fam != "color" && fam != "visibility" {
+		if fam != "color" && fam != "visibility" && !strings.HasPrefix(fam, "column-") && !strings.HasPrefix(fam, "outline-") {
 			name = longhandName(fam, vlib.Pick(g.r, sides))
 		}
 		val := g.valueFor(fam, computed)
@@ -335,6 +383,12 @@ func (g *G) decl(computed bool, names []string) string {
 			name = "-weasy-" + name
 		}
 		return g.cs(name) + colon + val + imp
+	case k < 44 && g.r.Chance(1, 5): // columns (mostly valid)
+		name := "columns"
+		if g.r.Chance(1, 25) {
+			name = "-weasy-columns"
+		}
+		return g.cs(name) + colon + g.columnsValue(computed) + imp
 	case k < 44: // valid four-sides shorthand
 		fam := vlib.Pick(g.r, fourFamilies)
 		n := g.r.Range(1, 4)
@@ -351,6 +405,9 @@ func (g *G) decl(computed bool, names []string) string {
 		name := "border"
 		if g.r.Bool() {
 			name = "border-" + vlib.Pick(g.r, sides)
+		}
+		if g.r.Chance(1, 4) {
+			name = g.pick("outline", "column-rule", "-weasy-column-rule")
 		}
 		var parts []string
 		if g.r.Chance(2, 3) {
@@ -375,7 +432,8 @@ func (g *G) decl(computed bool, names []string) string {
 		return g.cs(name) + colon + strings.Join(parts, g.sep()) + imp
 	case k < 72: // bad value on a known name
 		fam := g.pick("margin", "padding", "bleed", "border-width", "border-style", "border-color", "border", "border-left", "color", "visibility",
-			"margin-top", "padding-left", "bleed-right", "border-top-width", "border-bottom-style", "border-right-color")
+			"margin-top", "padding-left", "bleed-right", "border-top-width", "border-bottom-style", "border-right-color", "columns", "column-width", "column-count",
+			"outline", "column-rule", "outline-style", "outline-color", "column-rule-width")
 		val := g.badValue()
 		switch g.r.Intn(4) {
 		case 0:
